@@ -860,6 +860,18 @@ func (s *Server) Dump(w *World) string {
 	if s.ReplMon {
 		fmt.Fprintf(&b, " replmon=%.0f", s.ReplMonTS)
 	}
+	// fault knobs decide futures too: two states that differ only in them must not be merged
+	if len(s.FailOps) > 0 {
+		var fo []string
+		for k, v := range s.FailOps {
+			fo = append(fo, fmt.Sprintf("%s:%d", k, v))
+		}
+		sort.Strings(fo)
+		fmt.Fprintf(&b, " failops=%v", fo)
+	}
+	if s.FailRO != 0 || s.StuckSQL || s.Hung || s.Dubious {
+		fmt.Fprintf(&b, " knobs=%v/%v/%v/%v", s.FailRO, s.StuckSQL, s.Hung, s.Dubious)
+	}
 	return b.String()
 }
 
